@@ -289,6 +289,25 @@ def oracle_check(refl, res, points):
     return "same", None
 
 
+def eval_cost(t, cap=10 ** 7):
+    """Rough number of leaf evaluations of the brute-force value of `t` at one point."""
+    def go(x):
+        c = 1
+        for ch in R.subfunsors(x):
+            c += go(ch)
+            if c > cap:
+                return cap
+        b = getattr(x, "bound", None)
+        if b:
+            for d in b.values():
+                try:
+                    c *= max(1, int(d.size)) if isinstance(d.dtype, int) and not d.shape else 1
+                except Exception:
+                    pass
+        return min(c, cap)
+    return go(t) if isinstance(t, Funsor) else 1
+
+
 class FiringCheck:
     """Prepared comparison of one firing (serialisation done; Lean request pending)."""
     __slots__ = ("f", "refl", "ins", "env_points", "wire_refl", "wire_res", "req", "model_reqs")
@@ -376,6 +395,8 @@ class Checker:
         self.model_fired = Counter()
         self.model_declined = Counter()
         self.samples = 0
+        import random
+        self.pts_rng = random.Random(f"C02-points-{ctx.seed}")
 
     # -- collection -------------------------------------------------------------------------
     def add_program(self, recipe, mode, stream="clean"):
@@ -428,12 +449,28 @@ class Checker:
             ctx.case()
             return
         ins, reals = split
+        fixed_envs = [{}]
         npts = 1
         for _, s in ins:
             npts *= s
-        if npts * (3 ** len(reals)) > 5000:
-            ctx.count("skip:input-space-too-large")
-            return
+        cost = max(eval_cost(refl), eval_cost(f.result))
+        budget = max(8, min(256, int(60000 / max(cost, 1))))
+        if npts > budget:
+            # enumerate a random subset of the inputs exhaustively, fix the others at 3 random settings
+            order = list(ins)
+            self.pts_rng.shuffle(order)
+            enum, rest, prod = [], [], 1
+            for n_, s_ in order:
+                if prod * s_ <= budget:
+                    enum.append((n_, s_))
+                    prod *= s_
+                else:
+                    rest.append((n_, s_))
+            fixed_envs = [{n_: self.pts_rng.randrange(s_) for n_, s_ in rest} for _ in range(3)]
+            ins = sorted(enum)
+            ctx.count("input-space:sampled")
+        else:
+            ctx.count("input-space:exhaustive")
         c = FiringCheck()
         c.f, c.refl, c.ins = f, refl, ins
         try:
@@ -443,7 +480,7 @@ class Checker:
             ctx.count("lean-beyond-model->python-oracle")
             self.oracle(f, refl, why=str(e))
             return
-        envs = [{}]
+        envs = fixed_envs
         for r_ in reals:
             envs = [dict(e, **{r_: v}) for e in envs for v in R.REAL_POINTS]
         c.env_points = envs
